@@ -96,19 +96,39 @@ def generate(ctx, tier, bases):
     bj = ctx.path("bases.json")
     with open(bj, "w") as fh:
         json.dump([{"name": b["name"], "prog": M.to_model(b)} for b in bases], fh)
-    r = ctx.tlc("Pipeline", "MC_Pipeline", "gen.cfg", files={"gen.cfg": GEN_CFG % (t["gen"], fixes), "bases.json": bj},
-                timeout=2400, label="MC_Pipeline[%s]" % t["gen"])
-    cases = ctx.tlc_cases(r)
-    if t["pairs"]:
+    # development aid (sensitivity runs against many mutants): reuse the TLC-generated universe of an earlier run
+    cache = os.environ.get("VERIF_C04_CASES_CACHE")
+
+    def cached(tag, fn):
+        f = "%s.%s" % (cache, tag) if cache else None
+        if f and os.path.exists(f):
+            ctx.notes.append("universe part '%s' loaded from VERIF_C04_CASES_CACHE (development aid)" % tag)
+            return json.load(open(f))
+        out = fn()
+        if f:
+            json.dump(out, open(f, "w"))
+        return out
+
+    def singles():
+        r = ctx.tlc("Pipeline", "MC_Pipeline", "gen.cfg", files={"gen.cfg": GEN_CFG % (t["gen"], fixes), "bases.json": bj},
+                    timeout=3600, label="MC_Pipeline[%s]" % t["gen"])
+        return ctx.tlc_cases(r)
+
+    def pairs():
         r2 = ctx.tlc("Pipeline", "MC_Pipeline", "gen.cfg", files={"gen.cfg": GEN_CFG % ("pairs", fixes), "bases.json": bj},
-                     mode="simulate", simulate=t["pairs"], depth=16, timeout=2400, label="MC_Pipeline[pairs]")
-        seen = set()
+                     mode="simulate", simulate=t["pairs"], depth=22, timeout=3600, label="MC_Pipeline[pairs]")
+        seen, out = set(), []
         for c in ctx.tlc_cases(r2):
             k = json.dumps([c["base"], c["case"], c["cmd"]], sort_keys=True)
             if k not in seen:
                 seen.add(k)
                 c["case"]["kind"] = "pair"
-                cases.append(c)
+                out.append(c)
+        return out
+
+    cases = cached("singles", singles)
+    if t["pairs"]:
+        cases += cached("pairs", pairs)
     return cases
 
 
@@ -387,15 +407,7 @@ def run(ctx, args):
     rnd = random.Random(ctx.seed)
     bases = M.base_programs(tier)
     layer_a_selfcheck(ctx, tier)
-    # development aid (sensitivity runs against many mutants): reuse the TLC-generated universe of an earlier run
-    cache = os.environ.get("VERIF_C04_CASES_CACHE")
-    if cache and os.path.exists(cache):
-        cases = json.load(open(cache))
-        ctx.notes.append("universe loaded from VERIF_C04_CASES_CACHE (development aid), not generated in this run")
-    else:
-        cases = generate(ctx, tier, bases)
-        if cache:
-            json.dump(cases, open(cache, "w"))
+    cases = generate(ctx, tier, bases)
     if not cases:
         raise vlib.MachineryError("TLC emitted no cases")
     vacuity(cases, bases, tier)
